@@ -1,9 +1,9 @@
 package interp
 
 import (
-	"os"
 	"fmt"
 	"go/types"
+	"os"
 
 	"verif/engine/sym"
 )
